@@ -220,23 +220,29 @@ def evaluate_rerun(prop, case):
     res.stats = stats = {}
     res.extra_runs = 1
     spec2 = second_spec(case)
-    if not S.admissible(spec2):
+    # (removing members may leave a scheduler with forever jobs only: 'its
+    # last non-forever job' is vacuous there, as in the generator)
+    degenerate = any(
+        S.is_sched(n) and n['members'] and all(m['forever']
+                                               for m in n['members'])
+        for n, _, _ in S.walk(spec2))
+    if degenerate or not S.admissible(spec2):
         res.violations, res.shape, res.nontrivial = [], 0, False
         res.run, res.vtime = None, 0.0
         return res
     run = run_spec(case['spec'], case['knobs'], case.get('choices'),
-                   attrs2=case['attrs2'])
+                   attrs2=case['attrs2'], spec2=spec2)
     if run.harness_error:
         raise RuntimeError(run.harness_error)
-    run.spec = spec2
     res.run = run
-    hist = History(run)
-    viols = []
     if run.seq_rerun is None:
         # the first run got stuck: nothing to judge here (C03's business)
         res.violations, res.shape, res.nontrivial = [], shape(run), False
         res.vtime = run.loop_stats['vtime']
         return res
+    run.spec = spec2
+    hist = History(run)
+    viols = []
     if run.outcome not in ('ret', 'exc'):
         viols.append(oracles.Violation(
             prop, 'second-run-does-not-terminate', 'rerun',
@@ -465,6 +471,12 @@ def _generic_stats(run, hist, stats):
                 bump('fault:job_returned_from_cancellation_handler')
         n_sdcancel += len(h.sd_cancel)
         n_again += len(h.cancel_again)
+    jump = run.knobs.get('wall_jump')
+    if jump and jump[0] <= getattr(run, 't_end', 0.0) - run.knobs['base']:
+        bump('fault:wall_clock_stepped_during_the_run')
+    for h in hist.nodes.values():
+        if not h.is_sched and h.spec.get('handler_self_cancel') and h.sd_exit:
+            bump('fault:shutdown_handler_ended_with_own_CancelledError')
     bump('fault:job_raised', n_raise)
     bump('fault:job_cancelled', n_cancel)
     bump('fault:shutdown_handler_cancelled', n_sdcancel)
